@@ -734,9 +734,11 @@ def gen_adversarial(rnd):
     """Scripts built around cyclic / dangling / duplicate references."""
     g = Gen(rnd, 0.3)
     L = [['house', 'h1']]
-    k = rnd.randrange(16)
+    k = rnd.randrange(18)
     if k == 15:
         k = 14
+    if k == 17:
+        k = 16
     names = list(FRAMES)
     rnd.shuffle(names)
     n = rnd.randint(2, 5)
@@ -905,6 +907,24 @@ def gen_adversarial(rnd):
         L += [['go', 'next'], ['frame', 'b'], ['print', 'hi'],
               ['framer', 'fb', 'be', 'aux'], ['frame', 'a'], ['done'],
               ['framer', 'mo', 'be', 'moot'], ['frame', 'a'], ['done']]
+    elif k == 16:   # init ... from ...: source / destination field lists of every shape (missing source fields,
+        # different names, different counts, value share vs field share, dangling source share)
+        flds = ['x', 'y', 'z', 'value']
+        srcs = ['.a', '.b.c', 'zz.q']
+        L.append(['init', '.a', 'with'] + g.ch([['x', '1'], ['x', '1', 'y', '2'], ['5'], ['value', '3', 'z', '"s"']]))
+        if rnd.random() < 0.7:
+            L.append(['init', '.b.c', 'with'] + g.ch([['5'], ['y', '2'], ['x', '1', 'z', '0']]))
+        for _ in range(rnd.randint(1, 3)):
+            line = ['init']
+            if rnd.random() < 0.6:
+                line += [g.ch(flds) for _ in range(rnd.randint(1, 2))] + ['in']
+            line += [g.ch(['.b.c', '.d', '.a', 'rel.e'])]
+            line += ['from']
+            if rnd.random() < 0.6:
+                line += [g.ch(flds) for _ in range(rnd.randint(1, 3))] + ['in']
+            line += [g.ch(srcs[:2] if rnd.random() < 0.85 else srcs)]
+            L.append(line)
+        L += [['framer', 'fa', 'be', 'active'], ['frame', 'a'], ['print', 'hi']]
     else:           # a generated program plus extra structural commands with loose references
         L = Gen(rnd, 0.5).program()
     return L
